@@ -108,8 +108,12 @@ class C04(F.PropCheck):
                 conns[ints[1]]['frames'].append((ints[0], ints[2], ints[3], bytes(data)))
             elif k == 'RX' and ints[1] in conns:
                 i = ints[2]
-                # (a segment longer than the whole receive buffer is never stored by recv_cb: "Recv buffer size exceeded")
-                if 0 <= i < len(evs) and evs[i][0] == 'RECV' and len(evs[i][2]) <= c['RECVBUFF_MAX']: conns[ints[1]]['chunks'].append((ints[0], bytes(evs[i][2])))
+                if 0 <= i < len(evs) and evs[i][0] == 'RECV':
+                    if len(evs[i][2]) >= c['RECVBUFF_MAX'] - 1:
+                        # a segment that fills the whole receive buffer (or is longer: recv_cb stores none of it): what the device's parser sees
+                        # from here on depends on the buffer bound; the connection is not judged beyond this point
+                        if conns[ints[1]]['t_end'] is None: conns[ints[1]]['t_end'] = ints[0]; conns[ints[1]]['closed_by'] = 'OPAQUE'
+                    elif conns[ints[1]]['closed_by'] != 'OPAQUE': conns[ints[1]]['chunks'].append((ints[0], bytes(evs[i][2])))
             elif k in ('DISCD', 'DISCONNECT', 'CONNECT', 'RESTART'):
                 for n, d in conns.items():
                     if d['t_end'] is None and (k != 'DISCD' or ints[1] == n):
